@@ -411,6 +411,9 @@ func Run(sys *System, b Bounds) *Result {
 	t0 := time.Now()
 	if b.Workers <= 0 {
 		b.Workers = runtime.NumCPU()
+		if s := os.Getenv("VERIF_WORKERS"); s != "" {
+			fmt.Sscan(s, &b.Workers)
+		}
 	}
 	e := &explorer{sys: sys, b: b, visited: map[[16]byte][]visitEntry{}, out: map[string]int64{}, viols: map[string]Violation{}}
 	// root state
